@@ -162,6 +162,9 @@ class SeriesOps:
         return s.with_term(T.opaque(f"Series.{name}"))
 
     def _isin(self, t: T.Term, values: Any) -> T.Term:
+        if isinstance(values, GuardedSeq):
+            # membership in [v for x in <known elements> if c(x)]: some kept element equals the value
+            return T.or_(*[T.and_(c_, T.cmp("==", t, to_term(v_))) for c_, v_ in values.entries]) if values.entries else T.FALSE
         if isinstance(values, (list, set, frozenset, PyTuple)):
             items = values.items if isinstance(values, PyTuple) else list(values)
             if not any(isinstance(x, Each) or (isinstance(x, tuple) and len(x) == 2 and x[0] == "allof") for x in items):
@@ -844,6 +847,10 @@ class SeriesOps:
             return ("next", to_term(a0)) + ((to_term(pos[1]),) if len(pos) == 2 else ())
         if fn in ("any", "all"):
             return (fn, to_term(a0))
+        if fn == "map" and len(pos) == 2 and I._concrete_seq(pos[1]) is not None and not any(isinstance(x, Each) for x in I._concrete_seq(pos[1])) and len(I._concrete_seq(pos[1])) <= 16 \
+                and (isinstance(pos[0], (FuncRef, Obj)) or (isinstance(pos[0], tuple) and pos[0] and pos[0][0] in ("attr", "method"))):
+            # map(f, xs) over known elements: [f(x) for x in xs] (consumed by a loop / comprehension / list() in the code analysed)
+            return [self.M.invoke(pos[0], [x], {}, node, "map-callee") for x in I._concrete_seq(pos[1])]
         if fn in ("map", "filter"):
             return (fn, to_term(pos[0]), to_term(pos[1]) if len(pos) > 1 else None)
         if fn in ("open",):
